@@ -9,6 +9,7 @@ import Spec.StoreInv
 import Proofs.C02Basic
 import Proofs.C02Ops
 import Proofs.C02Frame
+import Proofs.C02PosFrame
 
 namespace MongoModel.Proofs.C02
 open MongoModel MongoModel.Spec MongoModel.Proofs.C02Lemmas
